@@ -31,6 +31,7 @@ RULE = (
 )
 RULE = RULE + " " + 'One case in 5: the whole configuration in another length unit (x 2^-200, 2^-66, 2^40, 2^150).'
 ASSUMPTIONS = [
+    "configurations in which a single grid point holds all the weight (decided by a brute-force assignment before the fit) are skipped: no localisation can reach another populated grid point, which is the property's proviso; the library's weighted covariance of the grid is 0 / 0 there and fit ends in OverflowError (DESIGN 11.5)",
     "proviso of the property (localisation reaches another grid point): a bandwidth is judged only when the second largest captured localised weight is >= 1e-6 of the largest; models with a grid point outside the proviso are not used for relations",
     "the mixture oracle uses the public bandwidth_ and the captured assignment after that assignment has been checked against brute force",
     "relations are judged on configurations without assignment ties; tolerance 1e-6 on log-densities (bandwidth localisation is iterative)",
@@ -458,6 +459,12 @@ def run(case, j):
                 return "PROVISO"
         return None
 
+    # proviso of the property, decided before the fit by a brute-force assignment: when one grid point holds all the
+    # weight no localisation can reach another populated grid point (the weighted covariance of the grid is 0 / 0)
+    D2_pre, _ = _dist2(D, G, cell)
+    wn_pre = np.full(n, 1.0 / n) if w is None else np.asarray(w, dtype=float) / float(np.sum(w))
+    if int((np.bincount(D2_pre.argmin(axis=1), weights=wn_pre, minlength=len(G)) > 0).sum()) < 2:
+        raise Skip("proviso:one-populated-grid-cell")
     try:
         est = j.lib("fit", _model, case, D, w, G, cell, pr, allowed=(_Watchdog,), known=proviso)
     except Skip as sk:
